@@ -104,7 +104,12 @@ var genStr = rapid.Custom(func(t *rapid.T) string {
 func TestC15Lists(t *testing.T) {
 	h := vk.Start(t, "C15", "lists")
 	vk.Rapid(h, t, func(t *rapid.T) QuoteCase {
-		return mkQuoteCase(rapid.SliceOfN(genStr, 0, 5).Draw(t, "ss")...)
+		c := mkQuoteCase(rapid.SliceOfN(genStr, 0, 5).Draw(t, "ss")...)
+		if len(c.SS) > 0 && rapid.IntRange(0, 9).Draw(t, "long") == 0 {
+			base := rapid.SampledFrom([]int{64, 512, 4096, 4096, 8192}).Draw(t, "boundary")
+			c.Pad = max(0, base-rapid.IntRange(0, len(c.SS[0])+4).Draw(t, "before"))
+		}
+		return c
 	}, runQuote)
 }
 
@@ -341,6 +346,11 @@ func TestC16Rand(t *testing.T) {
 		c := SplitCase{In: make([]int, len(b))}
 		for i, x := range b {
 			c.In[i] = int(x)
+		}
+		if rapid.IntRange(0, 9).Draw(t, "long") == 0 {
+			// place the interesting bytes across the 4096- or 8192-byte boundary
+			base := rapid.SampledFrom([]int{4096, 4096, 8192}).Draw(t, "boundary")
+			c.Pad = max(0, base-rapid.IntRange(0, len(b)+2).Draw(t, "before"))
 		}
 		c.Frag = rapid.SliceOfN(rapid.IntRange(0, 7), 0, 6).Draw(t, "frag")
 		ok := false
